@@ -155,8 +155,27 @@ def bounded_lazy_eval(p):
     if not S.check(got[0] == 'ok' and c.n == eager_calls, dict(what='equal sub-expressions in one call', how=how),
                    f'{how}: the sub-expression was evaluated {c.n} times (eager evaluation calls it {eager_calls} times); result {got}'):
       return S.result()
+  # evaluation order inside one call is eager Python's: the callee, positional arguments left to right, then keywords
+  def pack(*a, **k):
+    return (a, tuple(sorted(k.items())))
+  c = Counter()
+  tick = lambda: c()[1]
+  eager = (lambda: pack(tick(), tick(), k=tick()))()
+  c = Counter()
+  tick2 = lazy_fns.trace(lambda: c()[1])
+  got = expect(lambda: mm(lazy_fns.trace(pack)(tick2(), tick2(), k=tick2())))
+  if not S.check(got == ('ok', eager), dict(what='evaluation order of positional and keyword sub-expressions'), f'lazy {got}, eager {eager}'):
+    return S.result()
   fresh = mm(lazy_fns.trace(pair)(lazy_fns.trace(list)(), lazy_fns.trace(list)()))
   if not S.check(fresh[0] is not fresh[1], dict(what='equal sub-expressions yield distinct fresh objects'), f'pair(list(), list()) returned the same list object twice: {fresh}'):
+    return S.result()
+  # cached calls that differ only in an argument being a lazy object wrapping v versus v itself (equal hashes)
+  lazy_fns.clear_cache()
+  ident = lambda x: ('f', x)
+  r1 = expect(lambda: mm(lazy_fns.trace(ident)(3, cache_result_=True)))
+  r2 = expect(lambda: mm(lazy_fns.trace(ident)(lazy_fns.trace(3), cache_result_=True)))
+  if not S.check(r1 == ('ok', ('f', 3)) and r2 == ('ok', ('f', 3)), dict(what='cached calls: lazy-wrapped vs plain argument'),
+                 f'cached f(3) = {r1}; cached f(trace(3)) = {r2}'):
     return S.result()
   # cached calls that differ only in a keyword value whose hash collides (hash(-1) == hash(-2) in CPython)
   def shape_without(shape, axis=0):
